@@ -399,6 +399,13 @@ SmsIdent == SmsWith(ContentA,
                 <<Seg(1, 0, <<0, 1, 0, -1>>), Seg(1, 2, <<0, 1, 2, 0>>),
                   Seg(2, 0, <<0, 2, 0, -1>>)>>,
                 <<FileA>>, <<ContentA>>, <<Name0>>, <<>>)
+(* an empty replacement at every position of leaves whose chunks carry      *)
+(* names and whose recorded content equals the text (C13: changes nothing)  *)
+LawScopeNamed ==
+  IF Scope \notin {"c13"} THEN {} ELSE
+  UNION {{SameLaw(x, Replace(x, <<[EmptyRepl EXCEPT !.s = p, !.e = p]>>)) : p \in 0..Len(x.b)} :
+          x \in {SmsIdent, SmsDupNames}}
+
 (* a user-defined child that announces its names lazily                     *)
 LazyChild ==
   [k |-> "script", b |-> <<cA, cA, 98, 98, 99, NL>>,
@@ -656,7 +663,9 @@ C10Inners ==
    CC(<<Orig(<<cA>>), Raw("str", <<cB, NL>>), SmsB>>),
    Replace(Orig(<<cA, cA, cSC, NL, cA>>), <<Repl(1, 2, <<cX, NL>>)>>),
    Raw("str", <<cA, cB, NL>>),
-   Cached(Orig(<<cA, NL, cB>>))}
+   Cached(Orig(<<cA, NL, cB>>)),
+   \* mapped text that is blank lines only: no map with columns, a map without
+   Orig(<<NL, NL>>), CC(<<Raw("str", <<cB, NL>>), Orig(<<NL>>)>>)}
 
 ObsOn(op, r) == [op |-> op, r |-> r]
 StreamOn(r, c) == [op |-> "stream", r |-> r, columns |-> c, final |-> FALSE]
@@ -934,8 +943,29 @@ RopeProg(a, b) ==
   [kind |-> "rope", pieces |-> RopePieces,
    steps |-> <<[op |-> "rope_obs", a |-> a, b |-> b]>>]
 
+(* the same text divided into pieces in two different ways (every set of    *)
+(* interior character boundaries), built by from_iter or by a chain of add: *)
+(* binary observers must not see the division                               *)
+ResplitTexts == {<<cA, cB, 99, 100>>, <<cA, 195, 169, cB>>, <<cA, NL, cB, 99>>}
+InteriorBounds(t) == {i \in 1..(Len(t) - 1) : i \in Boundaries(t)}
+PiecesOf(t, cuts) ==
+  LET cs == SetToSortSeq(cuts \cup {Len(t)}, <)
+  IN [k \in 1..Len(cs) |-> SubSeq(t, IF k = 1 THEN 1 ELSE cs[k - 1] + 1, cs[k])]
+RECURSIVE AddChain(_, _)
+AddChain(base, n) == IF n = 0 THEN RNew ELSE RAdd(AddChain(base, n - 1), base + n - 1)
+ResplitProgs ==
+  UNION {
+    {LET p == PiecesOf(t, c1)
+         q == PiecesOf(t, c2)
+         ea == IF how[1] THEN RIter([k \in 1..Len(p) |-> k - 1]) ELSE AddChain(0, Len(p))
+         eb == IF how[2] THEN RIter([k \in 1..Len(q) |-> Len(p) + k - 1]) ELSE AddChain(Len(p), Len(q))
+     IN [kind |-> "rope", pieces |-> p \o q, steps |-> <<[op |-> "rope_obs", a |-> ea, b |-> eb]>>]
+     : c1 \in SUBSET InteriorBounds(t), c2 \in SUBSET InteriorBounds(t), how \in BOOLEAN \X BOOLEAN}
+    : t \in ResplitTexts}
+
 C16Scope ==
   IF Scope \notin {"c16", "c16full"} THEN {} ELSE
+  ResplitProgs \cup
   LET big == RE1 \cup RE2
       small == IF Scope = "c16" THEN RE0Slim ELSE RE0
   IN {RopeProg(a, b) : a \in big, b \in small} \cup {RopeProg(a, b) : a \in small, b \in big}
@@ -945,7 +975,7 @@ C16Scope ==
 ProgSet ==
   CASE Scope \in {"c01", "c02"} -> {Prog(<<Build(t)>> \o StreamObs) : t \in TreesSmall}
     [] Scope = "c05" -> Hist2 \cup Hist3
-    [] Scope = "c13" -> LawScope
+    [] Scope = "c13" -> LawScope \cup LawScopeNamed
     [] Scope = "c17" -> C17Scope
     [] Scope = "c04" -> C04Scope
     [] Scope = "c06" -> C06Scope
